@@ -55,6 +55,33 @@ Proof.
       unfold ok, observable; simpl; now rewrite E.
 Qed.
 
+(* the capacity after Clear / Clip is the one the contents determine *)
+Lemma certain_cap_thm : forall m oc h s k, wfs h s -> pure_cap m (contents h s) = Some k ->
+  cap (r_recv (bs_call m oc h s)) = k.
+Proof.
+  intros m oc h s k W P. destruct m; simpl in P; try discriminate; inversion P; subst; unfold bs_call.
+  - (* Clip *) simpl. symmetry. apply contents_length. exact W.
+  - (* Clear *) unfold new_empty, mk. reflexivity.
+Qed.
+
+(* a detaching method writes no old array and leaves the receiver on storage outside the old heap: no slice that
+   existed before shares anything with the receiver afterwards *)
+Lemma detach_thm : forall m oc h s, detaches m = true -> wfs h s ->
+  let r := bs_call m oc h s in
+  ext h (r_heap r) /\ fresh h (r_recv r) /\ forall t, wfs h t -> shares (r_recv r) t = false.
+Proof.
+  intros m oc h s D W. destruct m; simpl in D; try discriminate; cbv zeta; unfold bs_call.
+  - (* Filter *)
+    pose proof (filter_loop_top f h (contents h s) oc) as P. destruct (filter_loop f h (contents h s) oc) as [h1 r].
+    destruct P as (E1 & W1 & F1 & C1). unfold ok. simpl. split; auto. split; auto.
+    intros t Wt. eapply fresh_not_shares; eauto.
+  - (* Clear *)
+    pose proof (mk_spec h 0 0 (le_n _)) as M. unfold new_empty. destruct (mk h 0 0) as [h1 r1].
+    destruct M as (E1 & W1 & F1 & A1 & O1 & L1 & C1 & N1 & LH1). unfold ok. simpl.
+    assert (Fr : fresh h r1) by (right; exact C1).
+    split; auto. split; auto. intros t Wt. eapply fresh_not_shares; eauto.
+Qed.
+
 Lemma fmap_laws : forall k k' v m,
   a_get k (a_set k' v m) = (if (k =? k')%Z then Some v else a_get k m)
   /\ (ksorted m -> a_get k (a_del k' m) = if (k =? k')%Z then None else a_get k m)
@@ -123,4 +150,18 @@ Proof.
   exists [[1]]%Z, {| arr := 0; off := 0; len := 1; cap := 1; isnil := false |}, (2 ^ 62)%Z, 0.
   split; [repeat split; simpl; auto; discriminate|]. split; [vm_compute; reflexivity|].
   split; vm_compute; reflexivity.
+Qed.
+
+(* N5: before the repair Unmarshal merged documents into the spare capacity: equal contents, different results *)
+Lemma n5_refuted : exists h1 s1 h2 s2 ds oc,
+  wfs h1 s1 /\ wfs h2 s2 /\ contents h1 s1 = contents h2 s2
+  /\ (let '(a, b) := unmarshal_docs_unrepaired h1 s1 ds oc in contents a b)
+     <> (let '(a, b) := unmarshal_docs_unrepaired h2 s2 ds oc in contents a b)
+  /\ (let '(a, b) := unmarshal_docs_unrepaired h2 s2 ds oc in contents a b) <> pure_recv (MUnmarshal (JDocs ds)) (contents h2 s2).
+Proof.
+  exists [[17]]%Z, {| arr := 0; off := 0; len := 1; cap := 1; isnil := false |},
+         [[17; 34]]%Z, {| arr := 0; off := 0; len := 1; cap := 2; isnil := false |},
+         [DRec (Some 5%Z) None; DRec (Some 6%Z) None], 2.
+  split; [repeat split; simpl; auto; discriminate|]. split; [repeat split; simpl; auto; discriminate|].
+  split; [reflexivity|]. split; vm_compute; discriminate.
 Qed.
